@@ -39,7 +39,7 @@ Next == /\ viol = {}
         /\ \E k \in 1..Len(EdgesOf(sys, node)) :
              LET ed == EdgesOf(sys, node)[k]
                  e  == ed.ev
-                 g2 == Step(Cfg(sys), g, e)
+                 g2 == Step(Cfg(sys), g, e, NodeOf(sys, ed.to).lookup)
              IN /\ node' = ed.to
                 /\ g' = g2
                 /\ lastop' = e.op
